@@ -42,84 +42,189 @@ type c20sym struct {
 	name  string
 	typ   ast.NodeType
 	class string // scalar | id | set | fkset | fk | map
+	key   string // bucket key the symbol reads from; "" = the name
 }
 
+func (d c20sym) bucketKey() string {
+	if d.key == "" {
+		return d.name
+	}
+	return d.key
+}
+
+// Public-ness is a matter of symbol NAMES.  Besides the usual name = key symbols the store has
+// symbols whose bucket key differs from their name, with every kind of coincidence between a key
+// and the name of another symbol (a public / non-public scalar, an always-public id, a set,
+// another map, a name that is nothing at all).
 var c20People = []c20sym{
-	{"id", ast.NodeTypeString, "id"},
-	{"name", ast.NodeTypeString, "scalar"},
-	{"nick", ast.NodeTypeString, "scalar"},
-	{"age", ast.NodeTypeInt64, "scalar"},
-	{"rank", ast.NodeTypeInt64, "scalar"},
-	{"score", ast.NodeTypeFloat64, "scalar"},
-	{"born", ast.NodeTypeDatetime, "scalar"},
-	{"seen", ast.NodeTypeDatetime, "scalar"},
-	{"active", ast.NodeTypeBool, "scalar"},
-	{"flag", ast.NodeTypeBool, "scalar"},
-	{"extra", ast.NodeTypeAnyType, "scalar"},
-	{"nums", ast.NodeTypeString, "set"},
-	{"ints", ast.NodeTypeInt64, "set"},
-	{"flts", ast.NodeTypeFloat64, "set"},
-	{"days", ast.NodeTypeDatetime, "set"},
-	{"places", ast.NodeTypeString, "fkset"},
-	{"home", ast.NodeTypeString, "fk"},
-	{"tags", ast.NodeTypeAnyType, "map"},
-	{"meta", ast.NodeTypeAnyType, "map"},
+	{"id", ast.NodeTypeString, "id", ""},
+	{"name", ast.NodeTypeString, "scalar", ""},
+	{"nick", ast.NodeTypeString, "scalar", ""},
+	{"age", ast.NodeTypeInt64, "scalar", ""},
+	{"rank", ast.NodeTypeInt64, "scalar", ""},
+	{"score", ast.NodeTypeFloat64, "scalar", ""},
+	{"born", ast.NodeTypeDatetime, "scalar", ""},
+	{"seen", ast.NodeTypeDatetime, "scalar", ""},
+	{"active", ast.NodeTypeBool, "scalar", ""},
+	{"flag", ast.NodeTypeBool, "scalar", ""},
+	{"extra", ast.NodeTypeAnyType, "scalar", ""},
+	{"alias", ast.NodeTypeString, "scalar", "meta"}, // AddSymbolWithKey: key = the name of a map symbol
+	{"level", ast.NodeTypeInt64, "scalar", "lvl"},   // key names nothing
+	{"nums", ast.NodeTypeString, "set", ""},
+	{"ints", ast.NodeTypeInt64, "set", ""},
+	{"flts", ast.NodeTypeFloat64, "set", ""},
+	{"days", ast.NodeTypeDatetime, "set", ""},
+	{"places", ast.NodeTypeString, "fkset", ""},
+	{"home", ast.NodeTypeString, "fk", ""},
+	{"work", ast.NodeTypeString, "fk", "nick"}, // AddFkSymbolWithKey: key = the name of a scalar
+	{"tags", ast.NodeTypeAnyType, "map", ""},
+	{"meta", ast.NodeTypeAnyType, "map", ""},
+	{"labels", ast.NodeTypeAnyType, "map", "lbl"}, // key names nothing
+	{"attrs", ast.NodeTypeAnyType, "map", "name"}, // key = the name of a scalar whose public flag varies
+	{"props", ast.NodeTypeAnyType, "map", "tags"}, // key = the name of another map
+	{"opts", ast.NodeTypeAnyType, "map", "id"},    // key = the name of an always-public symbol
+	{"dims", ast.NodeTypeAnyType, "map", "nums"},  // key = the name of a set symbol
 }
 
 var c20Places = []c20sym{
-	{"id", ast.NodeTypeString, "id"},
-	{"name", ast.NodeTypeString, "scalar"},
-	{"zip", ast.NodeTypeInt64, "scalar"},
-	{"open", ast.NodeTypeBool, "scalar"},
-	{"shops", ast.NodeTypeString, "set"},
-	{"residents", ast.NodeTypeString, "fkset"},
-	{"info", ast.NodeTypeAnyType, "map"},
+	{"id", ast.NodeTypeString, "id", ""},
+	{"name", ast.NodeTypeString, "scalar", ""},
+	{"zip", ast.NodeTypeInt64, "scalar", ""},
+	{"open", ast.NodeTypeBool, "scalar", ""},
+	{"shops", ast.NodeTypeString, "set", ""},
+	{"residents", ast.NodeTypeString, "fkset", ""},
+	{"info", ast.NodeTypeAnyType, "map", ""},
 }
 
-var c20MapNames = []string{"tags", "meta"}
-
-// composite / element names the generator uses (and may publish explicitly)
-var c20Composite = []string{"places.name", "places.zip", "places.id", "places.shops", "home.name", "home.zip",
-	"tags.foo", "tags.bar-baz", "meta.x", "tags.a.b"}
-
-type c20stores struct {
-	people boltz.ConfigurableStore
-	places boltz.ConfigurableStore
-}
-
-// buildStores creates real boltz stores whose public symbols are exactly pub (plus those the
-// API always publishes: id and fk symbols added with AddIdSymbol / AddFkSymbol).
-func buildStores(pub map[string]bool) *c20stores {
-	peopleDef := (&boltz.StoreDefinition[boltz.Entity]{EntityType: "people"}).WithBasePath("app")
-	placesDef := (&boltz.StoreDefinition[boltz.Entity]{EntityType: "places"}).WithBasePath("app")
-	s := &c20stores{people: boltz.NewBaseStore(*peopleDef), places: boltz.NewBaseStore(*placesDef)}
-	add := func(st boltz.ConfigurableStore, other boltz.ConfigurableStore, defs []c20sym, pub map[string]bool) {
-		for _, d := range defs {
-			switch d.class {
-			case "id":
-				st.AddIdSymbol(d.name, d.typ)
-			case "scalar":
-				if pub[d.name] {
-					st.AddSymbol(d.name, d.typ)
-				} else {
-					st.AddEntitySymbol(st.NewEntitySymbol(d.name, d.typ))
-				}
-			case "set":
-				st.AddSetSymbol(d.name, d.typ)
-			case "fkset":
-				st.AddFkSetSymbol(d.name, other)
-			case "fk":
-				st.AddFkSymbol(d.name, other)
-			case "map":
-				st.AddMapSymbol(d.name, d.typ, d.name)
-			}
+func c20MapNames() []string {
+	var out []string
+	for _, d := range c20People {
+		if d.class == "map" {
+			out = append(out, d.name)
 		}
 	}
-	add(s.places, s.people, c20Places, map[string]bool{"name": true, "zip": true, "open": true})
-	add(s.people, s.places, c20People, pub)
+	return out
+}
+
+// name -> bucket key of every map symbol of the people store
+func c20MapKeys() map[string]string {
+	out := map[string]string{}
+	for _, d := range c20People {
+		if d.class == "map" {
+			out[d.name] = d.bucketKey()
+		}
+	}
+	return out
+}
+
+// name -> bucket key of every symbol of the people store whose key is not its name
+func c20SymKeys() map[string]string {
+	out := map[string]string{}
+	for _, d := range c20People {
+		if d.bucketKey() != d.name {
+			out[d.name] = d.bucketKey()
+		}
+	}
+	return out
+}
+
+// elements of the map symbols the generators use
+var c20MapElems = []string{"tags.foo", "tags.bar-baz", "meta.x", "tags.a.b",
+	"labels.env", "labels.a.b", "attrs.secret", "attrs.a.b", "props.p", "opts.o", "dims.d"}
+
+// composite / element names the generator uses (and may publish explicitly)
+var c20Composite = append([]string{"places.name", "places.zip", "places.id", "places.shops", "home.name", "home.zip",
+	"work.name", "work.zip"}, c20MapElems...)
+
+// ---------------------------------------------------------------------------------- store configuration
+//
+// A store is configured by a PROGRAM: a list of calls of the configuration API.  Programs are
+// data so that (1) the same program can be handed to the Coq model Ast/PublicCfg.v (cfg_cases.txt)
+// and (2) a failing one can be replayed.
+//
+//	I name -    type   AddIdSymbol(name, type)                      registered + public
+//	A name key  type   AddSymbol / AddSymbolWithKey(name, type, key) registered + public
+//	F name key  -      AddFkSymbol / AddFkSymbolWithKey(name, key, places)   registered + public
+//	Q name -    type   AddPublicSetSymbol(name, type)                registered + public
+//	E name -    type   AddEntitySymbol(NewEntitySymbol(name, type))  registered
+//	S name -    type   AddSetSymbol(name, type)                      registered
+//	L name -    -      AddFkSetSymbol(name, places)                  registered
+//	M name key  type   AddMapSymbol(name, type, key)
+//	K name -    0|1    MakeSymbolPublic(name); aux: the harness' own schema says the name resolves through a linked store
+//	G -    -    -      store0.GrantSymbols(store1)
+type c20op struct {
+	op    byte
+	store int
+	name  string
+	key   string
+	aux   string
+}
+
+func (o c20op) String() string {
+	aux := o.aux
+	if aux == "" {
+		aux = "-"
+	}
+	return fmt.Sprintf("%c %d %s %s %s", o.op, o.store, hxs(o.name), hxs(o.key), aux)
+}
+
+func c20typ(t ast.NodeType) string { return fmt.Sprintf("%d", int(t)) }
+
+// does `name` resolve against schema defs (linked symbols lead to schema other)?  The harness'
+// own statement, independent of BaseStore.GetSymbol.
+func c20schemaResolves(defs, other []c20sym, name string, depth int) bool {
+	for _, d := range defs {
+		if d.name == name && d.class != "map" {
+			return true
+		}
+	}
+	i := strings.IndexByte(name, '.')
+	if i <= 0 || depth > 6 {
+		return false
+	}
+	base, rest := name[:i], name[i+1:]
+	for _, d := range defs {
+		if d.name == base {
+			switch d.class {
+			case "map":
+				return true
+			case "fk", "fkset":
+				return c20schemaResolves(other, defs, rest, depth+1)
+			}
+			return false
+		}
+	}
+	return false
+}
+
+// the program that configures the people store (store 0) so that its public symbols are exactly
+// pub (plus those the API always publishes: id and fk symbols)
+func c20program(pub map[string]bool) []c20op {
+	var ops []c20op
+	for _, d := range c20People {
+		switch d.class {
+		case "id":
+			ops = append(ops, c20op{'I', 0, d.name, "", c20typ(d.typ)})
+		case "scalar":
+			if pub[d.name] {
+				ops = append(ops, c20op{'A', 0, d.name, d.bucketKey(), c20typ(d.typ)})
+			} else {
+				// no API registers a non-public symbol under a key of its own
+				ops = append(ops, c20op{'E', 0, d.name, "", c20typ(d.typ)})
+			}
+		case "set":
+			ops = append(ops, c20op{'S', 0, d.name, "", c20typ(d.typ)})
+		case "fkset":
+			ops = append(ops, c20op{'L', 0, d.name, "", ""})
+		case "fk":
+			ops = append(ops, c20op{'F', 0, d.name, d.bucketKey(), ""})
+		case "map":
+			ops = append(ops, c20op{'M', 0, d.name, d.bucketKey(), c20typ(d.typ)})
+		}
+	}
 	for _, d := range c20People {
 		if pub[d.name] && (d.class == "set" || d.class == "fkset" || d.class == "map") {
-			s.people.MakeSymbolPublic(d.name)
+			ops = append(ops, c20op{'K', 0, d.name, "", "0"})
 		}
 	}
 	var extra []string
@@ -130,10 +235,99 @@ func buildStores(pub map[string]bool) *c20stores {
 	}
 	sort.Strings(extra)
 	for _, n := range extra {
-		s.people.MakeSymbolPublic(n)
+		aux := "0"
+		if c20schemaResolves(c20People, c20Places, n, 0) {
+			aux = "1"
+		}
+		ops = append(ops, c20op{'K', 0, n, "", aux})
+	}
+	return ops
+}
+
+type c20stores struct {
+	people boltz.ConfigurableStore // store 0
+	child  boltz.ConfigurableStore // store 1: a child store of people
+	places boltz.ConfigurableStore // the linked store
+}
+
+func c20atoi(s string) int {
+	n := 0
+	fmt.Sscanf(s, "%d", &n)
+	return n
+}
+
+// c20build runs a configuration program against real boltz stores
+func c20build(ops []c20op) *c20stores {
+	peopleDef := (&boltz.StoreDefinition[boltz.Entity]{EntityType: "people"}).WithBasePath("app")
+	placesDef := (&boltz.StoreDefinition[boltz.Entity]{EntityType: "places"}).WithBasePath("app")
+	s := &c20stores{people: boltz.NewBaseStore(*peopleDef), places: boltz.NewBaseStore(*placesDef)}
+	childDef := &boltz.StoreDefinition[boltz.Entity]{EntityType: "kids", Parent: s.people,
+		ParentMapper: func(e boltz.Entity) boltz.Entity { return e }}
+	s.child = boltz.NewBaseStore(*childDef)
+	for _, d := range c20Places {
+		switch d.class {
+		case "id":
+			s.places.AddIdSymbol(d.name, d.typ)
+		case "scalar":
+			s.places.AddSymbol(d.name, d.typ)
+		case "set":
+			s.places.AddSetSymbol(d.name, d.typ)
+		case "fkset":
+			s.places.AddFkSetSymbol(d.name, s.people)
+		case "map":
+			s.places.AddMapSymbol(d.name, d.typ, d.name)
+		}
+	}
+	for _, o := range ops {
+		st := s.people
+		if o.store == 1 {
+			st = s.child
+		}
+		typ := ast.NodeType(c20atoi(o.aux))
+		switch o.op {
+		case 'I':
+			st.AddIdSymbol(o.name, typ)
+		case 'A':
+			if o.key == o.name {
+				st.AddSymbol(o.name, typ)
+			} else {
+				st.AddSymbolWithKey(o.name, typ, o.key)
+			}
+		case 'F':
+			if o.key == o.name {
+				st.AddFkSymbol(o.name, s.places)
+			} else {
+				st.AddFkSymbolWithKey(o.name, o.key, s.places)
+			}
+		case 'Q':
+			st.AddPublicSetSymbol(o.name, typ)
+		case 'E':
+			st.AddEntitySymbol(st.NewEntitySymbol(o.name, typ))
+		case 'S':
+			st.AddSetSymbol(o.name, typ)
+		case 'L':
+			st.AddFkSetSymbol(o.name, s.places)
+		case 'M':
+			st.AddMapSymbol(o.name, typ, o.key)
+		case 'K':
+			st.MakeSymbolPublic(o.name)
+		case 'G':
+			s.people.GrantSymbols(s.child)
+		}
 	}
 	return s
 }
+
+func (s *c20stores) store(i int) boltz.ConfigurableStore {
+	if i == 1 {
+		return s.child
+	}
+	return s.people
+}
+
+// buildStores creates real boltz stores whose public symbols are exactly pub (plus those the
+// API always publishes: id and fk symbols added with AddIdSymbol / AddFkSymbol).
+func buildStores(pub map[string]bool) *c20stores { return c20build(c20program(pub)) }
 
 // ---------------------------------------------------------------------------------- generator
 
@@ -212,7 +406,7 @@ func c20Lhs(inner bool) []c20lhs {
 			out = append(out, symLhs(d.name))
 		}
 	}
-	for _, n := range []string{"home.name", "home.zip", "tags.foo", "tags.bar-baz", "meta.x", "tags.a.b"} {
+	for _, n := range append([]string{"home.name", "home.zip", "work.name"}, c20MapElems...) {
 		out = append(out, symLhs(n))
 	}
 	for _, fn := range []string{"anyOf", "allOf", "count"} {
@@ -236,9 +430,9 @@ func (g *c20gen) atom(inner bool, depth int) string {
 		strSyms, intSyms, boolSyms, anySyms = []string{"name", "id", "residents.name"}, []string{"zip"}, []string{"open"}, []string{"info.k"}
 		sSets, iSets, fkSets = []string{"shops", "residents", "residents.name"}, []string{"residents.age"}, []string{"residents"}
 	} else {
-		strSyms = []string{"name", "nick", "id", "home", "home.name"}
-		intSyms, fltSyms, dateSyms = []string{"age", "rank", "home.zip"}, []string{"score"}, []string{"born", "seen"}
-		boolSyms, anySyms = []string{"active", "flag"}, []string{"extra", "tags.foo", "tags.bar-baz", "meta.x", "tags.a.b"}
+		strSyms = []string{"name", "nick", "id", "home", "home.name", "alias", "work", "work.name"}
+		intSyms, fltSyms, dateSyms = []string{"age", "rank", "home.zip", "level"}, []string{"score"}, []string{"born", "seen"}
+		boolSyms, anySyms = []string{"active", "flag"}, append([]string{"extra"}, c20MapElems...)
 		sSets, iSets, fSets, dSets = []string{"nums", "places", "places.name", "places.id", "places.shops"}, []string{"ints", "places.zip"}, []string{"flts"}, []string{"days"}
 		fkSets = []string{"places"}
 	}
@@ -385,7 +579,8 @@ func (g *c20gen) boolExpr(inner bool, depth int) string {
 }
 
 func (g *c20gen) sortBy(inner bool) string {
-	fields := []string{"name", "nick", "age", "score", "born", "active", "id", "home", "home.name", "tags.foo", "extra"}
+	fields := []string{"name", "nick", "age", "score", "born", "active", "id", "home", "home.name", "tags.foo", "extra",
+		"alias", "level", "work", "labels.env", "attrs.secret", "props.p"}
 	if inner {
 		fields = []string{"name", "zip", "open", "id"}
 	}
@@ -772,10 +967,328 @@ func evaluatedNames(q ast.Query, tree *c20node, types ast.SymbolTypes, r *rng, r
 	return out
 }
 
+// ---------------------------------------------------------------------------------- store configurations
+//
+//	cfg_cases.txt : <store 0|1> <nops> {<op> <store> <hex name> <hex key> <aux>} <nprobes> {hex}
+//	cfg_impl.txt  : <npub> {hex, sorted} <nmaps> {hex, sorted} <one 0/1 per probe: IsPublicSymbol>
+//
+// "maps" are the names under which the real store has a map symbol registered, found by asking
+// GetSymbol for an element of every candidate name.
+
+// the public names the assignment pub MEANS for the people store, from the harness' own schema
+// (names; never a key): requested symbols / map names / resolvable composite names, plus the id
+// and fk symbols the API always publishes
+func c20intended(pub map[string]bool) []string {
+	var out []string
+	for _, d := range c20People {
+		if d.class == "id" || d.class == "fk" || pub[d.name] {
+			out = append(out, d.name)
+		}
+	}
+	for n := range pub {
+		if strings.Contains(n, ".") && c20schemaResolves(c20People, c20Places, n, 0) {
+			out = append(out, n)
+		}
+	}
+	sort.Strings(out)
+	return out
+}
+
+func c20cfgLine(ops []c20op, target int, probes []string) string {
+	var b strings.Builder
+	fmt.Fprintf(&b, "%d %d", target, len(ops))
+	for _, o := range ops {
+		b.WriteByte(' ')
+		b.WriteString(o.String())
+	}
+	b.WriteByte(' ')
+	b.WriteString(hexList(probes))
+	return b.String()
+}
+
+func c20parseCfgLine(line string) (ops []c20op, target int, probes []string, ok bool) {
+	defer func() {
+		if recover() != nil {
+			ok = false
+		}
+	}()
+	f := strings.Fields(line)
+	target = c20atoi(f[0])
+	n := c20atoi(f[1])
+	pos := 2
+	for i := 0; i < n; i++ {
+		o := c20op{op: f[pos][0], store: c20atoi(f[pos+1]), name: string(unhx(f[pos+2])), key: string(unhx(f[pos+3])), aux: f[pos+4]}
+		if o.aux == "-" {
+			o.aux = ""
+		}
+		ops = append(ops, o)
+		pos += 5
+	}
+	np := c20atoi(f[pos])
+	pos++
+	for i := 0; i < np; i++ {
+		probes = append(probes, string(unhx(f[pos])))
+		pos++
+	}
+	return ops, target, probes, true
+}
+
+// every undotted name that could be the name of a map symbol: names and keys of the program,
+// first components of dotted names and probes
+func c20candidates(ops []c20op, probes []string) []string {
+	seen := map[string]bool{}
+	var out []string
+	add := func(n string) {
+		if i := strings.IndexByte(n, '.'); i >= 0 {
+			n = n[:i]
+		}
+		if n != "" && !seen[n] {
+			seen[n] = true
+			out = append(out, n)
+		}
+	}
+	for _, o := range ops {
+		add(o.name)
+		add(o.key)
+	}
+	for _, p := range probes {
+		add(p)
+	}
+	return out
+}
+
+func c20sortedHex(xs []string) []string {
+	seen := map[string]bool{}
+	var out []string
+	for _, x := range xs {
+		h := hxs(x)
+		if !seen[h] {
+			seen[h] = true
+			out = append(out, h)
+		}
+	}
+	sort.Strings(out)
+	return out
+}
+
+func c20observeStore(st boltz.ConfigurableStore, candidates, probes []string) (res string) {
+	defer func() {
+		if recover() != nil {
+			res = "E"
+		}
+	}()
+	pub := c20sortedHex(st.GetPublicSymbols())
+	var maps []string
+	for _, cand := range candidates {
+		if st.GetSymbol(cand+".c20probe") != nil {
+			maps = append(maps, cand)
+		}
+	}
+	mh := c20sortedHex(maps)
+	var b strings.Builder
+	fmt.Fprintf(&b, "%d", len(pub))
+	for _, h := range pub {
+		b.WriteString(" " + h)
+	}
+	fmt.Fprintf(&b, " %d", len(mh))
+	for _, h := range mh {
+		b.WriteString(" " + h)
+	}
+	b.WriteByte(' ')
+	if len(probes) == 0 {
+		b.WriteByte('-')
+	}
+	for _, p := range probes {
+		if st.IsPublicSymbol(p) {
+			b.WriteByte('1')
+		} else {
+			b.WriteByte('0')
+		}
+	}
+	return b.String()
+}
+
+func (c *c20run) emitCfg(ops []c20op, target int, st *c20stores, probes []string) {
+	line := c20cfgLine(ops, target, probes)
+	if c.cfgSeen[line] {
+		return
+	}
+	c.cfgSeen[line] = true
+	if st == nil {
+		st = c20build(ops)
+	}
+	c.cfg.line("%s", line)
+	c.cfgImpl.line("%s", c20observeStore(st.store(target), c20candidates(ops, probes), probes))
+	c.stats["cfg-cases"]++
+}
+
+// probe names for programs over the people schema: every name and key, an element and a nested
+// element of each, the composite names, and names that are nothing
+func c20peopleProbes() []string {
+	seen := map[string]bool{}
+	var out []string
+	add := func(n string) {
+		if !seen[n] {
+			seen[n] = true
+			out = append(out, n)
+		}
+	}
+	for _, d := range c20People {
+		for _, n := range []string{d.name, d.bucketKey()} {
+			add(n)
+			add(n + ".env")
+			add(n + ".a.b")
+		}
+	}
+	for _, n := range c20Composite {
+		add(n)
+	}
+	add("nosuch")
+	add("nosuch.x")
+	return out
+}
+
+// programs written by hand: the order of MakeSymbolPublic and AddMapSymbol, re-registration under
+// another key, GrantSymbols to a child store before / after the child's own configuration
+func (c *c20run) fixedCfgPrograms() {
+	t := c20typ(ast.NodeTypeAnyType)
+	ts := c20typ(ast.NodeTypeString)
+	probes := []string{"id", "name", "labels", "labels.env", "labels.a.b", "attrs", "attrs.secret", "tags", "tags.x", "lbl", "lbl.env",
+		"name.secret", "alias", "alias.x", "home", "home.name", "home.nosuch", "nosuch", "nosuch.x"}
+	base := []c20op{{'I', 0, "id", "", ts}, {'A', 0, "name", "name", ts}}
+	with := func(more ...c20op) []c20op { return append(append([]c20op{}, base...), more...) }
+	progs := [][]c20op{
+		// the demonstration store: public map stored under another key; non-public map stored under the name of a public symbol
+		with(c20op{'M', 0, "labels", "tags", t}, c20op{'K', 0, "labels", "", "0"}, c20op{'M', 0, "attrs", "name", t}),
+		// published too early: MakeSymbolPublic before AddMapSymbol is ignored
+		with(c20op{'K', 0, "labels", "", "0"}, c20op{'M', 0, "labels", "lbl", t}),
+		with(c20op{'K', 0, "labels.env", "", "0"}, c20op{'M', 0, "labels", "lbl", t}),
+		// published, then registered again under another key: still public, by name
+		with(c20op{'M', 0, "labels", "lbl", t}, c20op{'K', 0, "labels", "", "0"}, c20op{'M', 0, "labels", "name", t}),
+		// only an element published
+		with(c20op{'M', 0, "labels", "lbl", t}, c20op{'K', 0, "labels.env", "", "0"}),
+		// a scalar stored under the name of a map and vice versa
+		with(c20op{'A', 0, "alias", "labels", ts}, c20op{'M', 0, "labels", "alias", t}),
+		with(c20op{'E', 0, "alias", "", ts}, c20op{'M', 0, "labels", "alias", t}, c20op{'K', 0, "labels", "", "0"}),
+		// composite names through a linked symbol with a key of its own
+		with(c20op{'F', 0, "home", "house", ""}, c20op{'K', 0, "home.name", "", "1"}, c20op{'K', 0, "home.nosuch", "", "0"}),
+		// unknown names cannot be published
+		with(c20op{'K', 0, "nosuch", "", "0"}, c20op{'K', 0, "nosuch.x", "", "0"}),
+	}
+	for _, p := range progs {
+		c.emitCfg(p, 0, nil, probes)
+	}
+	// GrantSymbols (name = key maps: the child inherits public flags by name)
+	grants := [][]c20op{
+		with(c20op{'E', 0, "secret", "", ts}, c20op{'M', 0, "tags", "tags", t}, c20op{'K', 0, "tags", "", "0"}, c20op{'M', 0, "meta", "meta", t},
+			c20op{'G', 0, "", "", ""}),
+		// the child's own symbols before and after the grant
+		with(c20op{'M', 0, "tags", "tags", t}, c20op{'K', 0, "tags", "", "0"}, c20op{'A', 1, "own", "own", ts}, c20op{'M', 1, "labels", "lbl", t},
+			c20op{'G', 0, "", "", ""}, c20op{'K', 1, "labels", "", "0"}, c20op{'E', 1, "alias", "", ts}),
+		// published in the parent only after the grant: not handed down
+		with(c20op{'M', 0, "tags", "tags", t}, c20op{'G', 0, "", "", ""}, c20op{'K', 0, "tags", "", "0"}),
+		// maps whose name differs from their key (inheritMapSymbol registers them under the key)
+		with(c20op{'M', 0, "labels", "tags", t}, c20op{'K', 0, "labels", "", "0"}, c20op{'M', 0, "attrs", "name", t}, c20op{'G', 0, "", "", ""}),
+	}
+	gprobes := append(append([]string{}, probes...), "secret", "own", "own.x", "meta", "meta.x")
+	for _, p := range grants {
+		c.emitCfg(p, 0, nil, gprobes)
+		c.emitCfg(p, 1, nil, gprobes)
+	}
+}
+
+// seeded random programs over a tiny pool of names, so that keys and names coincide all the time
+func (c *c20run) randomCfgProgram() {
+	r := c.r
+	pool := []string{"a", "b", "c", "d", "id"}
+	rests := []string{"x", "y.z", "name", "zip", "nosuch", "info.k"}
+	var probes []string
+	for _, n := range pool {
+		probes = append(probes, n)
+		for _, x := range rests {
+			probes = append(probes, n+"."+x)
+		}
+	}
+	probes = append(probes, "nosuch", "nosuch.x")
+	ts := c20typ(ast.NodeTypeString)
+	cls := [2]map[string]string{{}, {}}    // latest registration of a name in store.symbols: plain | linked
+	mapKey := [2]map[string]string{{}, {}} // store.mapSymbols as the harness expects it (only used to keep GrantSymbols order-independent)
+	var ops []c20op
+	n := 2 + r.intn(9)
+	for i := 0; i < n; i++ {
+		st := 0
+		if r.chance(30) {
+			st = 1
+		}
+		name, key := r.pick(pool), r.pick(pool)
+		if r.chance(40) {
+			key = name
+		}
+		switch r.intn(12) {
+		case 0:
+			ops = append(ops, c20op{'I', st, "id", "", ts})
+			cls[st]["id"] = "plain"
+		case 1, 2:
+			ops = append(ops, c20op{'A', st, name, key, ts})
+			cls[st][name] = "plain"
+		case 3:
+			ops = append(ops, c20op{'F', st, name, key, ""})
+			cls[st][name] = "linked"
+		case 4:
+			ops = append(ops, c20op{"QSE"[r.intn(3)], st, name, "", ts})
+			cls[st][name] = "plain"
+		case 5:
+			ops = append(ops, c20op{'L', st, name, "", ""})
+			cls[st][name] = "linked"
+		case 6, 7, 8:
+			ops = append(ops, c20op{'M', st, name, key, c20typ(ast.NodeTypeAnyType)})
+			mapKey[st][name] = key
+		case 9, 10:
+			target := name
+			aux := "0"
+			if r.chance(50) {
+				rest := r.pick(rests)
+				target = name + "." + rest
+				if cls[st][name] == "linked" && c20schemaResolves(c20Places, nil, rest, 0) {
+					aux = "1"
+				}
+			}
+			ops = append(ops, c20op{'K', st, target, "", aux})
+		case 11:
+			// Go ranges over mapSymbols in random order; the outcome depends on it only when a map with
+			// name != key is called like the key of another map - do not grant then
+			chain := false
+			for m, k := range mapKey[0] {
+				for m2, k2 := range mapKey[0] {
+					if m != m2 && k2 == m && k != m {
+						chain = true
+					}
+				}
+			}
+			if chain {
+				continue
+			}
+			ops = append(ops, c20op{'G', 0, "", "", ""})
+			for nm, cl := range cls[0] {
+				cls[1][nm] = cl
+			}
+			for _, k := range mapKey[0] {
+				mapKey[1][k] = k
+			}
+		}
+	}
+	st := c20build(ops)
+	c.emitCfg(ops, 0, st, probes)
+	c.emitCfg(ops, 1, st, probes)
+}
+
 // ---------------------------------------------------------------------------------- run
 
 type c20run struct {
 	cases, impl, oracle *lineWriter
+	cfg, cfgImpl        *lineWriter
+	cfgSeen             map[string]bool
+	peopleProbes        []string
 	kinds               map[string]int
 	stats               map[string]int
 	qid                 int
@@ -870,12 +1383,15 @@ func (c *c20run) emitQuery(text string, textSyms []string, pubs [][]string) {
 		for _, p := range pub {
 			pm[p] = true
 		}
-		st := buildStores(pm)
+		prog := c20program(pm)
+		st := c20build(prog)
+		c.emitCfg(prog, 0, st, c.peopleProbes)
+		intended := hexList(c20intended(pm))
 		// the public set the real store reports (id / fk symbols are always published)
 		real := st.people.GetPublicSymbols()
 		sort.Strings(real)
 		pubList := hexList(real)
-		maps := hexList(c20MapNames)
+		maps := hexList(c20MapNames())
 
 		c.cases.line("Y %s %s %s", pubList, maps, tb.String())
 		if vok {
@@ -883,7 +1399,7 @@ func (c *c20run) emitQuery(text string, textSyms []string, pubs [][]string) {
 		} else {
 			c.impl.line("0 E")
 		}
-		c.oracle.line("%d %s %s %s", c.qid, hxs(text), hexList(textSyms), hexList(evaluated))
+		c.oracle.line("%d %s %s %s %s", c.qid, hxs(text), hexList(textSyms), hexList(evaluated), intended)
 		c.stats["cases-typed"]++
 
 		if untyped != nil {
@@ -893,7 +1409,7 @@ func (c *c20run) emitQuery(text string, textSyms []string, pubs [][]string) {
 			} else {
 				c.impl.line("0 E")
 			}
-			c.oracle.line("%d %s %s 0", c.qid, hxs(text), hexList(textSyms))
+			c.oracle.line("%d %s %s 0 %s", c.qid, hxs(text), hexList(textSyms), intended)
 			c.stats["cases-untyped"]++
 		}
 	}
@@ -954,6 +1470,11 @@ func (c *c20run) assignments(textSyms []string, nRandom int) [][]string {
 		return xs
 	}
 	seen := map[string]bool{}
+	symKeys := c20SymKeys()
+	inUni := map[string]bool{}
+	for _, u := range uni {
+		inUni[u] = true
+	}
 	for _, s := range c20distinct(textSyms) {
 		base := s
 		if i := strings.IndexByte(s, '.'); i > 0 {
@@ -964,6 +1485,16 @@ func (c *c20run) assignments(textSyms []string, nRandom int) [][]string {
 		if !seen[base] {
 			seen[base] = true
 			out = append(out, except(base))
+			// a symbol (map, scalar, fk) stored under a key that is not its name: the NAME decides, so vary the
+			// public flag of whatever else is called like the key independently of the symbol's own
+			if key := symKeys[base]; key != "" && key != base {
+				out = append(out, []string{base}) // the symbol alone public
+				if inUni[key] {
+					out = append(out, except(key))       // map public, the symbol named like its key not
+					out = append(out, []string{key})     // map not public, the symbol named like its key public
+					out = append(out, except(base, key)) // neither
+				}
+			}
 		}
 	}
 	out = append(out, nil)
@@ -997,13 +1528,31 @@ func runC20(o *opts) error {
 	logrus.SetOutput(io.Discard)
 	c := &c20run{
 		cases: newLineWriter(o.out, "cases.txt"), impl: newLineWriter(o.out, "impl.txt"), oracle: newLineWriter(o.out, "oracle.txt"),
-		kinds: map[string]int{}, stats: map[string]int{}, r: newRng(c20mixSeed(o.seed)), randomEval: 6,
+		cfg: newLineWriter(o.out, "cfg_cases.txt"), cfgImpl: newLineWriter(o.out, "cfg_impl.txt"), cfgSeen: map[string]bool{},
+		peopleProbes: c20peopleProbes(),
+		kinds:        map[string]int{}, stats: map[string]int{}, r: newRng(c20mixSeed(o.seed)), randomEval: 6,
 	}
 	defer func() {
 		c.cases.close()
 		c.impl.close()
 		c.oracle.close()
+		c.cfg.close()
+		c.cfgImpl.close()
 	}()
+
+	if rc := o.get("replaycfg", ""); rc != "" {
+		data, err := os.ReadFile(rc)
+		if err != nil {
+			return err
+		}
+		for _, line := range strings.Split(strings.TrimSpace(string(data)), "\n") {
+			if ops, target, probes, ok := c20parseCfgLine(line); ok {
+				c.emitCfg(ops, target, nil, probes)
+			}
+		}
+		writeJSON(o.out, "stats.json", map[string]interface{}{"stats": c.stats, "kinds": c.kinds, "symbol_keys": c20SymKeys()})
+		return nil
+	}
 
 	if rc := o.get("replaycase", ""); rc != "" {
 		// <hex text> <ntext> {hex} <npub> {hex}
@@ -1033,21 +1582,25 @@ func runC20(o *opts) error {
 			pub := readList()
 			c.emitQuery(text, textSyms, [][]string{pub})
 		}
-		writeJSON(o.out, "stats.json", map[string]interface{}{"stats": c.stats, "kinds": c.kinds})
+		writeJSON(o.out, "stats.json", map[string]interface{}{"stats": c.stats, "kinds": c.kinds, "symbol_keys": c20SymKeys()})
 		return nil
 	}
 
 	nRandomAssign := 1
 	nRandomQueries := 900
+	nRandomCfg := 1500
 	if o.thorough() {
 		nRandomAssign = 3
 		nRandomQueries = 12000
+		nRandomCfg = 20000
 		c.randomEval = 12
 	}
 	if o.n > 0 {
 		nRandomQueries = o.n
 	}
 
+	// (0) hand-written store configurations (first: a failing one is the smallest demonstration)
+	c.fixedCfgPrograms()
 	// (1) bounded-exhaustive: every lhs shape x every operator/literal template, alone and under
 	// a sort clause; typing decides which of them are queries
 	tmpl := c20OpTemplates()
@@ -1102,6 +1655,10 @@ func runC20(o *opts) error {
 		text := g.query(false, 1+c.r.intn(3), true)
 		c.emitQuery(text, g.syms, c.assignments(g.syms, nRandomAssign))
 	}
-	writeJSON(o.out, "stats.json", map[string]interface{}{"stats": c.stats, "kinds": c.kinds})
+	// (3) random store configurations on their own
+	for i := 0; i < nRandomCfg; i++ {
+		c.randomCfgProgram()
+	}
+	writeJSON(o.out, "stats.json", map[string]interface{}{"stats": c.stats, "kinds": c.kinds, "symbol_keys": c20SymKeys()})
 	return nil
 }
